@@ -146,6 +146,23 @@ def search(pid, records, repo, scratch, seeds=4000, steps=80, tags=None):
                    'how': 'replay driver: pseudo-random histories on the real code against a reference model and the executable invariant',
                    'rerun': 'replay explore %s %d %d' % (col, seeds, steps)}
             want = set(tags_wanted or [pid]) | {'C10'}
+            if not (want & set(tags)) and ({'C02', 'C11'} & set(tags)):
+                # the representation invariant is broken on the real code: follow the same histories past that point to see
+                # what it does to the observable behaviour (short time limit: a corrupted arena may make the code loop)
+                try:
+                    p2 = drv(root, ['explore', col, str(seeds), str(steps), 'continue'], timeout=90)
+                    j2 = json.loads(p2.stdout.strip().split('\n')[-1])
+                    if not j2.get('ok'):
+                        ce2 = j2.get('counterexample', '')
+                        mo2 = re.match(r'^(?:seed \d+: )?\[([^\]]*)\]', ce2)
+                        tags2 = mo2.group(1).split(',') if mo2 else []
+                        if want & set(tags2):
+                            rec = {'found': True, 'input': ce2, 'tags': tags2, 'collection': col, 'invariant_broken_first': ce[:400],
+                                   'how': 'replay driver: pseudo-random histories on the real code, followed past the first violation of the executable invariant',
+                                   'rerun': 'replay explore %s %d %d continue' % (col, seeds, steps), 'tried': tried}
+                            return rec
+                except Exception as ex:
+                    tried.append({'collection': col, 'continue_mode': repr(ex)[:200]})
             if want & set(tags):
                 rec['tried'] = tried
                 return rec
